@@ -101,8 +101,8 @@ func (f *Func) String() string {
 
 // Type returns the type of the function.
 func (f *Func) Type() types.Type {
-	// Cache type if not present or if the address space has been set since.
-	if f.Typ == nil || f.Typ.AddrSpace != f.AddrSpace {
+	// Cache type if not present or stale (AddrSpace or Sig assigned since).
+	if f.Typ == nil || f.Typ.AddrSpace != f.AddrSpace || f.Typ.ElemType != types.Type(f.Sig) {
 		f.Typ = types.NewPointer(f.Sig)
 		f.Typ.AddrSpace = f.AddrSpace
 	}
